@@ -79,7 +79,6 @@ class BaseValidator:
         except TypeError as e:
             raise ValidationError(str(e)) from e
 
-    @ft.lru_cache(None)
     def signature(self, method: MethodType, exclude: Tuple[str, ...]) -> inspect.Signature:
         """
         Returns method signature.
@@ -89,10 +88,21 @@ class BaseValidator:
         :returns: signature
         """
 
+        # a bound method is created for every request (class based views): the cache is keyed by the underlying
+        # function, otherwise it would keep every view instance and its context alive
+        func = getattr(method, '__func__', None)
+        if func is not None:
+            return self._signature(func, exclude, True)
+
+        return self._signature(method, exclude, False)
+
+    @ft.lru_cache(None)
+    def _signature(self, method: MethodType, exclude: Tuple[str, ...], bound: bool) -> inspect.Signature:
         signature = inspect.signature(method)
+        parameters = list(signature.parameters.values())[1:] if bound else list(signature.parameters.values())
 
         method_parameters: List[inspect.Parameter] = []
-        for param in signature.parameters.values():
+        for param in parameters:
             if param.name not in exclude and not self._exclude_param(param.name, param.annotation, param.default):
                 method_parameters.append(param)
 
